@@ -6,6 +6,8 @@ d = f'/verif/seeded/{slug}'
 assert subprocess.run(['git', '-C', '/repo', 'status', '--porcelain'], capture_output=True, text=True).stdout.strip() == '', '/repo is dirty'
 subprocess.run(['git', '-C', '/repo', 'apply', f'{d}/patch.diff'], check=True)
 res = {}
+import shutil
+backup = {p: open(f'/verif/evidence/{p}.json').read() for p in props if os.path.exists(f'/verif/evidence/{p}.json')}
 try:
     for p in props:
         t0 = time.time()
@@ -15,6 +17,8 @@ try:
         print(p, 'exit', r.returncode, *lines[:4], sep='\n   ')
 finally:
     subprocess.run(['git', '-C', '/repo', 'checkout', '--', '.'], check=True)
+    for p, txt in backup.items():      # evidence written while the seed was applied does not describe the real tree: put the real one back
+        open(f'/verif/evidence/{p}.json', 'w').write(txt)
     # evidence / replay files written while the seed was applied do not describe the real tree: regenerate on demand
 meta_p = f'{d}/meta.json'
 meta = json.load(open(meta_p)) if os.path.exists(meta_p) else {}
